@@ -136,11 +136,11 @@ func (cs *coreState) infeasibleSearchMiss(from, to *ssa.BasicBlock) bool {
 
 func init() {
 	register(&Prop{
-		ID:    "C03",
-		Title: "Secondary indexes always mirror the base table",
-		Decided: "the representation invariants I2 (index.sortedKeys is the sorted multiset of the values of index.refs) and I3 (every base-table mutation is mirrored in every index) are preserved on every path: (R1) only core functions write index.refs/index.sortedKeys/Table.Indexes after construction; (R2) path-case analysis of every index mutator: the net change of refs[k] (absent→v, old→v, old→absent, unchanged) is matched by exactly the corresponding removal of the old index key and insertion (then sort) of the new one in sortedKeys, with presence established by a comma-ok lookup; (R3) every core function that changes Table.Data is followed on every success path by a range over t.Indexes whose body unconditionally calls an index mutator, (R4) with the same primary key; (R5) every call of Table.Clear is followed by a range over the same table's Indexes that clears each index, and the clear resets both containers; (R6) a function that inserts into Table.Indexes either back-fills the new index from the table's items or is only reachable on a table that was created in the same call (provably empty); (R7) per-index ItemCount flows from len(sortedKeys) through IndexesDescription into both SDK descriptions.",
+		ID:         "C03",
+		Title:      "Secondary indexes always mirror the base table",
+		Decided:    "the representation invariants I2 (index.sortedKeys is the sorted multiset of the values of index.refs) and I3 (every base-table mutation is mirrored in every index) are preserved on every path: (R1) only core functions write index.refs/index.sortedKeys/Table.Indexes after construction; (R2) path-case analysis of every index mutator: the net change of refs[k] (absent→v, old→v, old→absent, unchanged) is matched by exactly the corresponding removal of the old index key and insertion (then sort) of the new one in sortedKeys, with presence established by a comma-ok lookup; (R3) every core function that changes Table.Data is followed on every success path by a range over t.Indexes whose body unconditionally calls an index mutator, (R4) with the same primary key; (R5) every call of Table.Clear is followed by a range over the same table's Indexes that clears each index, and the clear resets both containers; (R6) a function that inserts into Table.Indexes either back-fills the new index from the table's items or is only reachable on a table that was created in the same call (provably empty); (R7) per-index ItemCount flows from len(sortedKeys) through IndexesDescription into both SDK descriptions.",
 		NotDecided: "that the index key derivation (GetKey with the index schema) yields the right key (C13) and that reading through the index iterates correctly (C02); values of attributes (C10).",
-		Assumes: []string{"I2/I3 assumed at mutator entry (induction hypothesis)"},
+		Assumes:    []string{"I2/I3 assumed at mutator entry (induction hypothesis)"},
 		Rules: []RuleDef{
 			{ID: "R1", Desc: "who-may-write index.refs / index.sortedKeys / Table.Indexes (T-FIELD)", Run: func(e *Engine) {
 				cs := e.coreModel()
